@@ -1099,7 +1099,89 @@ def h_builtin_functions(eng):
         eng.prove("builtin.literal_translates_to_its_value", ops.to_arith(r) == v)
 
 
-HARNESSES = [("Generator.exitExpression/operators", h_operator_dispatch), ("Generator.exitIfExpression", h_if_expression),
+class LSym(MXSym):
+    """a CasADi symbol whose node questions have definite answers"""
+
+    def __init__(self, name, shape=(1, 1)):
+        MXSym.__init__(self, name, shape)
+        self.attrs = {}
+
+    def sym_getattr(self, eng, name):
+        if name in self.attrs:
+            return self.attrs[name]
+        if name in ("is_constant", "is_op", "is_zero", "is_one"):
+            return stub(lambda eng, *a: False)
+        if name == "is_symbolic":
+            return stub(lambda eng: True)
+        return MXSym.sym_getattr(self, eng, name)
+
+    def sym_setattr(self, eng, name, value):
+        self.attrs[name] = value
+
+
+def h_derivatives_of_two_subscripts_in_one_loop(eng):
+    """Generator.get_derivative on loop-indexed symbols: inside `for i loop ... der(x[i+1]) - der(x[i]) ... end for` the generator holds
+    two placeholder symbols for the array x -- both NAMED "x[i]", each registered with its own subscript tree.  The derivative of
+    each is the derivative symbol of the whole array, indexed with THAT placeholder's own subscripts (one der(x) for both); which of
+    the two is asked first makes no difference."""
+    gm = install(eng)
+    A = AstFactory(eng)
+    fl_cls = eng.module_global(gm, "ForLoop")
+    nt = eng.module_global(gm, "ForLoopIndexedSymbol")
+    made = []
+
+    def new_mx(eng, args, kw):
+        t = LSym(str(args[0]), tuple(args[1]) if len(args) > 1 and isinstance(args[1], tuple) else (1, 1))
+        made.append(t)
+        return t
+    eng.call_contracts["_new_mx"] = new_mx
+    stop_node = A.ref("n")
+    rng = VObj(VClass("Slice"), {"start": A.prim(1), "step": A.prim(1), "stop": stop_node})
+    tree = VObj(VClass("ForEquation"), {"indices": VList([VObj(VClass("ForIndex"), {"name": "i", "expression": rng})])})
+    gstub = VObj(VClass("GeneratorStub"), {})
+    gstub.cls.attrs["get_integer"] = _get_integer(stop_node, 3)
+    loop = eng.call(fl_cls, [gstub, tree], {})          # the loop object as its real constructor makes it
+    x = LSym("x", (4, 1))
+    x.attrs["_modelica_shape"] = ((4,),)
+    subs = [VList([VList([A.ref("i")])]), VList([VList([A.new("Expression", operator="+", operands=VList([A.ref("i"), A.prim(1)]))])])]
+    holders, trees = [LSym("x[i]"), LSym("x[i]")], []
+    for k_ in range(2):
+        t = A.ref("x")
+        t.fields["indices"] = subs[k_]
+        trees.append(t)
+        ops.setitem(eng, loop.fields["indexed_symbols"], holders[k_], eng.call(nt, [t, False, MXT("indices%d" % k_)], {}))
+    klass = VObj(VClass("Class"), {"name": "M"})
+    nodes = VDict([(klass, VDict([("x", x)]))])
+    from .gen_common import new_generator
+    g = new_generator(eng, gm, {"src": VDict(), "for_loops": VList([loop]), "nodes": nodes, "entered_classes": VList([klass]), "derivative": VDict()})
+    loop.fields["generator"] = g
+    eng.call_contracts["Generator.get_mx"] = lambda eng, args, kw: x
+    asked = []
+
+    def get_indexed_symbol(eng, args, kw):
+        r = MXT("indexed", (args[1], args[2]))
+        asked.append((args[1], args[2], r))
+        return r
+    eng.call_contracts["Generator.get_indexed_symbol"] = get_indexed_symbol
+    order = [0, 1] if eng.choice(2) == 0 else [1, 0]
+    eng.input("asked_first", "der(x[i])" if order[0] == 0 else "der(x[i+1])")
+    f = eng.find_function(GEN, "Generator.get_derivative")
+    res = {}
+    for k_ in order:
+        res[k_] = eng.call(VBound(f, g), [holders[k_]], {})
+    eng.cover("loopder.done")
+    ders = [t for t in made if t.nm == "der(x)"]
+    eng.prove("loopder.one_derivative_symbol_for_the_array", z3.BoolVal(len(ders) == 1))
+    ok = True
+    for k_ in (0, 1):
+        r = res[k_]
+        ok = ok and isinstance(r, MXT) and r.kind == "indexed" and isinstance(r.args[0], VObj) and r.args[0].fields.get("indices") is subs[k_] and \
+            len(ders) == 1 and r.args[1] is ders[0] and r.args[0].fields.get("name") == "der(x)"
+    eng.prove("loopder.each_placeholder_gets_the_array_derivative_at_its_own_subscripts", z3.BoolVal(bool(ok)),
+              first=order[0], got=[repr(getattr(res[k_], "args", None))[:80] for k_ in (0, 1)])
+
+
+HARNESSES = [("Generator.get_derivative: two subscripts of one array in one loop", h_derivatives_of_two_subscripts_in_one_loop), ("Generator.exitExpression/operators", h_operator_dispatch), ("Generator.exitIfExpression", h_if_expression),
              ("Generator.exitIfEquation", h_if_equation), ("Generator.exitEquation", h_equation), ("ForLoop.__init__", h_for_range),
              ("Generator.exitForEquation", h_for_equation), ("Generator.exitForEquation with a delayed symbol", h_for_equation_with_delayed_symbol),
              ("Generator.exitForStatement", h_for_statement), ("tree.add_variable_value_statements (declaration values of function variables)", h_declaration_values_of_function_variables),
@@ -1107,7 +1189,7 @@ HARNESSES = [("Generator.exitExpression/operators", h_operator_dispatch), ("Gene
              ("Generator.get_function", h_get_function), ("Generator.exitEquation/shapes", h_equation_shapes),
              ("Generator.get_derivative/expression", h_derivative_of_expression),
              ("Generator.exitExpression/built-in array functions, der, calls; exitArray; exitPrimary", h_builtin_functions)]
-EXPECTED_COVER = {"op.done", "ifexpr.done", "ifeq.done", "eq.done", "range.done", "forloop.empty", "forloop.mapped", "forstmt.empty", "forstmt.mapped",
+EXPECTED_COVER = {"loopder.done", "op.done", "ifexpr.done", "ifeq.done", "eq.done", "range.done", "forloop.empty", "forloop.mapped", "forstmt.empty", "forstmt.mapped",
                   "ifstmt.done", "fn.done", "eqshape.done", "derexpr.done", "fordelay.mapped", "fordelay.empty", "declvalue.done"} | {"builtin." + c for c in ("der", "transpose", "sum", "linspace", "fill1", "fill2", "zeros1", "zeros2", "ones1", "ones2", "identity", "cat", "user-function", "array", "primary")}
 BOUNDED = True
 LEVEL = "proof"
